@@ -160,7 +160,38 @@ impl Check for C13 {
         let mut jobs: Vec<Job> = Vec::new();
         let input_desc;
         let s = |x: &str| x.to_string();
-        match idx % 8 {
+        match idx % 9 {
+            7 => {
+                // one account holding 4-6 commodities whose rates into TGT do not terminate (1/3, 2/7,
+                // ...) next to amounts with many integer digits: the converted sum needs more than
+                // the 28 digits a decimal carries, so the order of the additions shows in the last digit
+                let names = ["ACME", "BOLT", "CRUX", "DELTA", "ECHO"];
+                let k = 3 + rng.usize(3);
+                let mut ledger = String::new();
+                let mut holdings = String::from("2024/01/20 holdings\n");
+                let mut expr = String::new();
+                for (i, c) in names.iter().take(k).enumerate() {
+                    let den = *rng.pick(&[3u32, 7, 9, 11, 13, 6, 17]);
+                    let num = 1 + rng.usize(5);
+                    ledger.push_str(&format!("2024/01/{:02} rate {}\n    Assets:Trade    {} {} @@ {} TGT\n    Equity:Trade\n\n", 2 + i, c, den, c, num));
+                    let held = match rng.below(3) {
+                        0 => format!("{}", 1 + rng.usize(9)),
+                        1 => format!("{}.{}", 10 + rng.usize(90000), 1 + rng.usize(9)),
+                        _ => format!("{}", 1_000_000 + rng.usize(900_000_000)),
+                    };
+                    holdings.push_str(&format!("    Assets:Mix    {} {}\n", held, c));
+                    expr.push_str(&format!("{} {} + ", held, c));
+                }
+                let own = format!("{}.{}", 10 + rng.usize(990), rng.usize(100));
+                holdings.push_str(&format!("    Assets:Mix    {} TGT\n    Equity:Opening\n", own));
+                expr.push_str(&format!("{} TGT", own));
+                ledger.push_str(&holdings);
+                let _ = std::fs::write(&lp, &ledger);
+                jobs.push(Job { family: "wide-converted-sum", argv: vec![s("balance"), s("-X"), s("TGT"), s("--now"), s("2024-02-01"), lps.clone()] });
+                jobs.push(Job { family: "wide-converted-sum", argv: vec![s("balance"), s("-X"), s("TGT"), s("--historical"), s("--now"), s("2024-02-01"), lps.clone()] });
+                jobs.push(Job { family: "wide-converted-sum", argv: vec![s("primitive"), s("eval"), s("--date"), s("2024-02-01"), s("-X"), s("TGT"), s("-f"), lps.clone(), s("--"), format!("({})", expr)] });
+                input_desc = ledger;
+            }
             0 => {
                 // accepted generated ledger: all report commands
                 let Some((ledger, _)) = gen_report_ledger(&mut rng, 3, 12) else {
@@ -316,7 +347,7 @@ impl Check for C13 {
          ledgers (balance, register, accounts, format); accounts holding 3-6 commodities and multi-commodity inferred postings (balance, register, register of one \
          account); failing assertions / zero assertions / zero assignments on multi-commodity accounts and residuals in four commodities (error text); price graphs \
          with 2-4 equal-distance chains of different rate and holdings with several unconvertible commodities (balance -X, --historical, primitive eval -X); random \
-         price scenarios with holdings in every commodity; posting amounts / assertions / assignments written as expressions in which 2-4 commodities cancel; include trees with globs (primitive flatten, balance); imports whose rewrite rules have several capturing \
+         price scenarios with holdings in every commodity; one account holding 4-6 commodities with non-terminating rates (n/3, n/7, ...) next to 9-digit amounts, so that the converted sum exceeds 28 significant digits (balance -X, --historical, primitive eval -X of the sum); posting amounts / assertions / assignments written as expressions in which 2-4 commodities cancel; include trees with globs (primitive flatten, balance); imports whose rewrite rules have several capturing \
          matchers (CSV and ISO Camt053); CSV imports whose configuration has several defects at once (2-5 labels missing from the header, three different invalid field templates, three invalid patterns in one rule map: error text). With k >= 3 commodities in one printed amount a hash-ordered print differs between two runs with probability >= 5/6, so 6 \
          runs miss it with probability < 1e-3 per input. Distinct by input text."
             .to_string()
